@@ -21,8 +21,8 @@ C14_X5_utf8_reject|Iora.C14.X5_encodeUtf8_rejects|encodeUtf8 fails exactly on su
 C14_X5_total|Iora.C14.X5_decode_terminates|decodeEntities never exhausts its loop budget
 C14_X6_sax|Iora.C14.X6_sax_is_token_list|SAX callback sequence = pull token list, result = accepted
 C14_X6_dom|Iora.C14.X6_dom_flatten|the DOM, flattened in document order, is the pull token list with names copied and text/attribute values decoded
-#C14_X7_skeleton|Iora.C14.X7_skeleton_faithful|tokens(render d) = events d for every element/attribute skeleton and every formatting choice (quotes, white space in tags, <a/> vs <a></a>)
-#C14_X7_text|Iora.C14.X7_leading_space_kept|F29 repaired: a text node that starts with white space is reported with it
+C14_X7_skeleton|Iora.C14.X7_skeleton_faithful|tokens(render d) = events d for every element/attribute skeleton and every formatting choice (quotes, white space in tags, <a/> vs <a></a>)
+C14_X7_text|Iora.C14.X7_leading_space_kept|F29 repaired: a text node that starts with white space is reported with it
 C14_gen|Iora.C14.gen_conformance|constants regenerated from the header (token kinds, defaults, entity chain, character classes, UTF-8 bounds, messages) are what the model uses
 """
 for _l in OBLIGATION_TABLE.strip().splitlines():
@@ -819,6 +819,62 @@ def gen_mutation_cases(rng, ndocs, per_doc_cap):
     return cases
 
 
+def gen_default_boundary_cases(rng):
+    """Documents sitting exactly below / at / above each *default* limit (Options{} as the header constructs it)."""
+    cases = []
+    D, A, N, T, K = DEFAULT_OPTS
+    for d in (D - 1, D, D + 1):
+        doc = b"<a>" * d + b"x" + b"</a>" * d
+        cases.append(case_for(doc, DEFAULT_OPTS, "default-boundary", limit="depth", need=d, value=D, fits=d <= D))
+        doc = b"<a>" * (d - 1) + b"<e/>" + b"</a>" * (d - 1)
+        cases.append(case_for(doc, DEFAULT_OPTS, "default-boundary", limit="depth", need=d, value=D, fits=d <= D))
+    for a in (A - 1, A, A + 1):
+        doc = b"<a" + b"".join(b" a%d='%d'" % (i, i) for i in range(a)) + b"/>"
+        cases.append(case_for(doc, DEFAULT_OPTS, "default-boundary", limit="attrs", need=a, value=A, fits=a <= A))
+    for n in (N - 1, N, N + 1):
+        nm = b"n" * n
+        for doc in (b"<" + nm + b"/>", b"<" + nm + b"></" + nm + b">", b"<a " + nm + b"='1'/>", b"<?" + nm + b" d?><a/>"):
+            cases.append(case_for(doc, DEFAULT_OPTS, "default-boundary", limit="name", need=n, value=N, fits=n <= N))
+    small = (D, A, N, 1000, K)
+    for t in (999, 1000, 1001):
+        for doc in (b"<a>" + b"t" * t + b"</a>", b"<a>" + b" " * 10 + b"t" * (t - 10) + b"</a>", b"<a v='" + b"v" * t + b"'/>", b"t" * t):
+            cases.append(case_for(doc, small, "default-boundary", limit="text", need=t, value=1000, fits=t <= 1000))
+    # CDATA, comments, PI data and DOCTYPE are not subject to maxTextSpan (nothing in the header says they are): must be accepted
+    for doc in (b"<a><![CDATA[" + b"c" * 1500 + b"]]></a>", b"<!--" + b"c" * 1500 + b"--><a/>", b"<?p " + b"d" * 1500 + b"?><a/>"):
+        cases.append(case_for(doc, small, "default-boundary", limit="text(other)", need=1500, value=1000, fits=True))
+    return cases
+
+
+def gen_mutated_tree_cases(rng, count):
+    """1-3 random byte mutations (substitute / delete / insert / duplicate a span / truncate) of mid-size generated documents."""
+    cases = []
+    for i in range(count):
+        g = Gen(rng, expat_safe=False, size=rng.choice([1, 2, 3]))
+        g.document()
+        d = bytearray(g.out)
+        if len(d) > 600 or not d:
+            continue
+        for _ in range(rng.range(1, 3)):
+            k = rng.below(6)
+            pos = rng.below(len(d)) if d else 0
+            if k == 0 and d:
+                d[pos] = rng.choice(MUT_BYTES)
+            elif k == 1 and d:
+                del d[pos]
+            elif k == 2:
+                d.insert(pos, rng.choice(MUT_BYTES))
+            elif k == 3 and d:
+                ln = rng.range(1, 8)
+                d[pos:pos] = d[pos:pos + ln]
+            elif k == 4 and d:
+                del d[pos:]
+            elif d:
+                d[pos] ^= 1 << rng.below(8)
+        o = DEFAULT_OPTS if rng.chance(3, 4) else tuple(rng.choice([0, 1, 2, 3, 8, 256]) for _ in range(5))
+        cases.append(case_for(bytes(d), o, "mutated-tree"))
+    return cases
+
+
 def gen_random_cases(rng, count):
     cases = []
     alphabet = b"<<<>>//=\"'&;!?-[] \nab:#x1]CDATA[DOCTYPE"
@@ -910,7 +966,7 @@ def run(ctx: Ctx):
     if ok_build:
         ctx.audit(MODULES, OBLIGATIONS)
         if not quick:
-            ctx.leanchecker(MODULES + ["IoraModel.Lemmas.Xml", "IoraModel.Lemmas.XmlEntities", "IoraModel.Lemmas.XmlDom", "IoraModel.Model.Xml"])
+            ctx.leanchecker(MODULES + ["IoraModel.Lemmas.Xml", "IoraModel.Lemmas.XmlEntities", "IoraModel.Lemmas.XmlDom", "IoraModel.Lemmas.XmlRender", "IoraModel.Model.Xml"])
     else:
         ctx.cov["obligations"] = len(OBLIGATIONS)
     hb = ctx.build_harness("harness/c14_xml.cpp", sanitize=True)
@@ -920,11 +976,13 @@ def run(ctx: Ctx):
              "limit_reject": 0, "limit_accept": 0}
     if hb and os.path.exists(ctx.model_bin()):
         cases = load_corpus()
-        cases += gen_tree_cases(rng.fork("tree"), 1200 * scale, feats)
-        cases += gen_limit_cases(rng.fork("limit"), 150 * scale)
-        cases += gen_mutation_cases(rng.fork("mut"), 24 * (1 if quick else 6), 700 if quick else 2500)
-        cases += gen_random_cases(rng.fork("rand"), 1500 * scale)
-        cases += gen_entity_cases(rng.fork("ent"), 400 * scale)
+        cases += gen_tree_cases(rng.fork("tree"), 4000 * scale, feats)
+        cases += gen_limit_cases(rng.fork("limit"), 400 * scale)
+        cases += gen_default_boundary_cases(rng.fork("dflt"))
+        cases += gen_mutation_cases(rng.fork("mut"), 40 * (1 if quick else 8), 1000 if quick else 3000)
+        cases += gen_mutated_tree_cases(rng.fork("mtree"), 3000 * scale)
+        cases += gen_random_cases(rng.fork("rand"), 4000 * scale)
+        cases += gen_entity_cases(rng.fork("ent"), 1500 * scale)
         cases += gen_xxe_cases(rng)
         res = ctx.lockstep("xml", hb, cases)
         n_mismatch = 0
@@ -933,7 +991,7 @@ def run(ctx: Ctx):
             dist[cat] = dist.get(cat, 0) + 1
             fails = []
             nontrivial = True
-            if cat in ("tree", "limit", "limit-random", "mutation", "random", "xxe"):
+            if cat in ("tree", "limit", "limit-random", "mutation", "random", "xxe", "default-boundary", "mutated-tree"):
                 doc = c["doc"]
                 opts = tuple(c["opts"])
                 lines = {op.split()[0]: l for op, l in zip(c["ops"], impl)}
@@ -952,7 +1010,7 @@ def run(ctx: Ctx):
                         fails.append("X5: an internal entity was expanded")
                 if c.get("expect"):
                     fails += monitor_tree(c, impl)
-                if cat == "limit":
+                if cat in ("limit", "default-boundary"):
                     if c["fits"] and not acc:
                         fails.append("X4: document within every limit rejected (%s=%d, needs %d): %s" % (c["limit"], c["value"], c["need"], lines["pull"][-70:]))
                     if not c["fits"] and acc:
@@ -994,7 +1052,7 @@ def run(ctx: Ctx):
             elif cat == "defaults":
                 pass
             ctx.count_case("\n".join(c["ops"]), nontrivial=nontrivial)
-            if cat in ("tree", "limit", "mutation") and len(ctx.cov["samples"]) < 6 and rng.chance(1, 400):
+            if cat in ("tree", "limit", "mutation", "mutated-tree") and len(ctx.cov["samples"]) < 6 and rng.chance(1, 1500):
                 ctx.sample({"cat": cat, "ops": [o[:200] for o in c["ops"][:1]], "impl": [l[:200] for l in impl[:1]]})
             mism = [(i, a, b) for i, (a, b) in enumerate(zip(impl, model)) if a != b]
             if fails:
